@@ -158,7 +158,7 @@ func checkC06(c *core.Ctx) {
 				c.Nontrivial(fmt.Sprintf("%d/%d", i, n))
 			}
 		}
-		if i%100 == 0 {
+		if c.WantSample() {
 			c.Sample(pieceDesc(p, model.Flags{}))
 		}
 	})
